@@ -8,26 +8,28 @@ def verdictStr : SpecC02.Verdict → String
   | .fail i c => s!"fail step={i} clause={c}"
 
 /-- lines are `profile TAB case [TAB observation]`.
-    mode `model`: ↦ observation of the model; mode `oracle`: ↦ verdict of the C02 reference checker. -/
+    mode `model`: ↦ observation of the model; mode `oracle`: ↦ verdict of the C02 reference checker.
+    A case that does not parse is `(bad-case)` on both sides. -/
 def handler (mode : String) (line : String) : String :=
-  match line.splitOn "\t" with
-  | prof :: rest =>
-      match profileOf? prof, rest.mapM parse with
-      | some p, some [c] =>
-          if mode != "model" then "(bad-line)" else
-          match caseOf? c with
+  match mode, line.splitOn "\t" with
+  | "model", [prof, c] =>
+      match profileOf? prof with
+      | none => "(bad-line)"
+      | some p =>
+          match (parse c).bind caseOf? with
           | some cs => toStr (obsT (observe p cs))
           | none => "(bad-case)"
-      | some _, some [c, o] =>
-          if mode != "oracle" then "(bad-line)" else
-          match caseOf? c with
+  | "oracle", [prof, c, o] =>
+      match profileOf? prof with
+      | none => "(bad-line)"
+      | some _ =>
+          match (parse c).bind caseOf? with
           | some cs =>
-              match obsOf? o with
+              match (parse o).bind obsOf? with
               | some ob => verdictStr (SpecC02.check cs ob)
-              | none => if o == .list [.atom "bad-case"] then "fail step=0 clause=case-rejected-by-harness"
+              | none => if o == "(bad-case)" then "fail step=0 clause=case-rejected-by-harness"
                         else "fail step=0 clause=unparsable-observation"
-          | none => if o == .list [.atom "bad-case"] then "ok" else "fail step=0 clause=bad-case-accepted-by-harness"
-      | _, _ => "(bad-line)"
-  | _ => "(bad-line)"
+          | none => if o == "(bad-case)" then "ok" else "fail step=0 clause=bad-case-accepted-by-harness"
+  | _, _ => "(bad-line)"
 
 end Rbgp.C02
